@@ -220,6 +220,44 @@ def make_exception(tok: str) -> BaseException:
     return e
 
 
+_UNSET = object()
+
+
+def sig_shape(spec: str) -> tuple[int, int, bool, int, int, bool]:
+    """(required positional, defaulted positional, *args, required kw-only, defaulted kw-only, **kwargs)"""
+    if spec == "ctx":
+        return (1, 0, False, 0, 0, False)
+    if spec == "legacy":
+        return (3, 0, False, 0, 0, False)
+    assert spec.startswith("sig="), spec
+    r, o, v, kr, ko, vk = spec[4:].split(".")
+    return (int(r), int(o), v == "1", int(kr), int(ko), vk == "1")
+
+
+def sig_callable(shape, on_call, method: bool = False):
+    """A function whose `inspect.signature` has exactly `shape`; it hands the positional arguments it
+    was actually given (defaults left alone) and the keyword arguments to `on_call(args, kwargs)`."""
+    r, o, v, kr, ko, vk = shape
+    params = (["self"] if method else []) + [f"p{i}" for i in range(r)] + [f"q{i}=_UNSET" for i in range(o)]
+    if v:
+        params.append("*va")
+    elif kr or ko:
+        params.append("*")
+    params += [f"kr{i}" for i in range(kr)] + [f"ko{i}=_UNSET" for i in range(ko)]
+    if vk:
+        params.append("**vk")
+    pos = ", ".join([f"p{i}" for i in range(r)] + [f"q{i}" for i in range(o)])
+    kws = ", ".join([f"'kr{i}': kr{i}" for i in range(kr)] + [f"'ko{i}': ko{i}" for i in range(ko)])
+    src = (f"def strategy({', '.join(params)}):\n"
+           f"    args = [x for x in [{pos}] if x is not _UNSET]" + (" + list(va)" if v else "") + "\n"
+           f"    kwargs = {{k: x for k, x in {{{kws}}}.items() if x is not _UNSET}}\n"
+           + ("    kwargs.update(vk)\n" if vk else "")
+           + "    return _on_call(args, kwargs)\n")
+    ns = {"_UNSET": _UNSET, "_on_call": on_call}
+    exec(src, ns)  # noqa: S102 - generated from six small integers
+    return ns["strategy"]
+
+
 # --------------------------------------------------------------------------- configuration
 
 @dataclass
@@ -448,17 +486,28 @@ class Env:
         self.op_count += 1
         a = self.ask(f"op {self.op_count}", "op")
         if a.kind == "raise":
-            e = make_exception(a.a)
+            raise self._op_exception(a.a)
+        return Val(a.a)
+
+    def _op_exception(self, tok: str) -> BaseException:
+        """Same token => same exception OBJECT (an operation may re-raise a cached error)."""
+        cache = self.__dict__.setdefault("_op_exc_cache", {})
+        e = cache.get(tok)
+        if e is None:
+            e = make_exception(tok)
             try:
                 e._from_op = True  # type: ignore[attr-defined]
             except AttributeError:
                 object.__setattr__(e, "_from_op", True)
-            raise e
-        return Val(a.a)
+            if tok.startswith("ordinary:"):
+                cache[tok] = e
+        return e
 
     async def aop(self) -> Any:
         self.op_count += 1
         a = self.ask(f"op {self.op_count}", "op")
+        if a.kind == "raise" and a.a.startswith("ordinary:"):
+            raise self._op_exception(a.a)
         await self._araise_or(a)
         return Val(a.a)
 
@@ -495,7 +544,11 @@ class Env:
             return -math.inf
         return int(tok) * TICK
 
-    def make_strategy(self, key: str, kind: str, records: bool):
+    def make_strategy(self, key: str, spec: str, records: bool):
+        """`spec` is `ctx`, `legacy` or `sig=r.o.v.kr.ko.vk` (the shape of the callable's signature; the
+        model decides the kind from it with `normalizeSig`).  The callable is generated with exactly that
+        signature and logs the request according to HOW THE LIBRARY ACTUALLY CALLED IT: one positional
+        argument = context-style, three = legacy."""
         env = self
 
         def ctx_call(ctx):
@@ -510,16 +563,21 @@ class Env:
             env._raise_or(a)
             return env._sout(a.a)
 
+        def on_call(args, kwargs):
+            if kwargs:
+                raise AssertionError(f"strategy {key} called with keywords {sorted(kwargs)}")
+            if len(args) == 1:
+                return ctx_call(args[0])
+            if len(args) == 3:
+                return legacy_call(*args)
+            raise AssertionError(f"strategy {key} called with {len(args)} positional arguments")
+
+        fn = sig_callable(sig_shape(spec), on_call, method=records)
         if not records:
-            return ctx_call if kind == "ctx" else legacy_call
+            return fn
 
         class Recording:
-            if kind == "ctx":
-                def __call__(self, ctx):
-                    return ctx_call(ctx)
-            else:
-                def __call__(self, attempt, klass, prev):
-                    return legacy_call(attempt, klass, prev)
+            __call__ = fn
 
             def record_failure(self, klass=None):
                 a = env.ask(f"stratRecordFailure {key} {klass.name}", "stratRecord")
@@ -863,8 +921,24 @@ def run_case(case_id: str, cfg: LoopCfg, script: list, oracle, wall_seed: int = 
     """script: list of ('call'|'execute',) / ('advance', n)."""
     env = Env(cfg, oracle, wall_seed)
     env.deliver_throw = deliver_throw
-    built = build(env, cfg)
     import json as _json
+    try:
+        built = build(env, cfg)
+    except Exception as e:  # noqa: BLE001 - the library refused a configuration the model accepts
+        meta = {"kind": cfg.kind, "via_context": cfg.via_context, "wall_seed": wall_seed,
+                "deliver_throw": deliver_throw, "script": [list(s) for s in script]}
+        lines = [f"case {case_id}", "# meta " + _json.dumps(meta), cfg.cfg_line(), cfg.init_line()]
+        results = []
+        for st in script:
+            if st[0] == "advance":
+                lines.append(f"do advance {st[1]}")
+                continue
+            results.append(StepResult(st[0], f"raise unexpected:construction-{type(e).__name__}", [], {}))
+            lines.append(f"do {st[0]}")
+        for i, sr in enumerate(results):
+            lines.append(f"r {i} {sr.res}")
+        lines.append("end")
+        return CaseRun("\n".join(lines) + "\n", results, [], "construction-failed", cfg, script, None)
     meta = {"kind": cfg.kind, "via_context": cfg.via_context, "wall_seed": wall_seed,
             "deliver_throw": deliver_throw, "script": [list(s) for s in script]}
     lines = [f"case {case_id}", "# meta " + _json.dumps(meta), cfg.cfg_line(), cfg.init_line()]
